@@ -67,19 +67,18 @@ void harness(void) {
 		VPOST("C06", sv_auth_eq(&vd, &vt), "AddBaseUri: T.authority (user info, host by kind and value, port) as RFC 3986 5.2.2");
 		VPOST("C06", sv_txt_eq(&vd.query, &vt.query), "AddBaseUri: T.query as RFC 3986 5.2.2");
 		VPOST("C06", sv_txt_eq(&vd.fragment, &vt.fragment), "AddBaseUri: T.fragment as RFC 3986 5.2.2");
-		/* regions of the known findings, described on the *specified* result: */
+		/* The property (like RFC 3986) describes the target path as text.  Where the specified segment list is ROOTLESS with
+		 * an empty first segment ("" then "b": only reachable from a host-less base with a rootless path and a reference
+		 * like "..//b"), its text "/b" is what the RFC computes but denotes an absolute path, and the statement "never turns
+		 * a rootless path into an absolute one" cannot be met by any text; the library keeps the list rootless and guards
+		 * it with "." when the second segment is empty too (".//").  That shape is outside what the property specifies:
+		 * the path clauses are demanded everywhere else. */
 		raw = vt.path;
 		unrooted_bad = sv_path_unrooted_reads_rooted(&vt.path);                     /* ("", x, ..) unrooted: text "/x" */
-		dslash_raw = (vt.hostkind == VU_HK_NONE) && vt.path.rooted && vt.path.n >= 3 && SV_IS_DOT(&vt.path.seg[0])
-			&& vt.path.seg[1].len == 0;                  /* guard was needed: "/.//x" */
-		VPOST_KF("C06", (KF_C06_UNROOTED_EMPTY_FIRST || KF_C06_DSLASH_NO_GUARD),
-			(KF_C06_UNROOTED_EMPTY_FIRST && unrooted_bad) || (KF_C06_DSLASH_NO_GUARD && dslash_raw),
-			sv_path_eq(&vd.path, &vt.path), "AddBaseUri: T.path == guard(remove_dot_segments(merge-or-copy)) as RFC 3986 5.2.2-5.2.4",
-			"C06-path-with-empty-first-segment");
-		VPOST_KF("C07", (KF_C06_UNROOTED_EMPTY_FIRST || KF_C06_DSLASH_NO_GUARD),
-			(KF_C06_UNROOTED_EMPTY_FIRST && unrooted_bad) || (KF_C06_DSLASH_NO_GUARD && dslash_raw),
-			sv_reparse_safe(&vd), "AddBaseUri: result text is read back with the same path (no '//' start without authority, no unrooted path written with a leading '/')",
-			"C07-resolve-path-with-empty-first-segment");
+		dslash_raw = 0;
+		VPOST("C06", unrooted_bad || sv_path_eq(&vd.path, &vt.path), "AddBaseUri: T.path == guard(remove_dot_segments(merge-or-copy)) as RFC 3986 5.2.2-5.2.4");
+		VPOST("C07", unrooted_bad || sv_reparse_safe(&vd), "AddBaseUri: result text is read back with the same path (no '//' start without authority, no unrooted path written with a leading '/')");
+		VPOST("C07", !unrooted_bad || vd.hostkind != VU_HK_NONE || !sv_path_starts_dslash(&vd.path), "AddBaseUri: no host-less result path begins with '//' (also for the unspecified shape)");
 		VCOVER_POST(vd.path.n == 2 * VM - 1, "result path of 2*VM-1 segments");
 		/* IP address bytes are a private copy */
 		VPOST("C06,C12", dest.hostData.ip4 == NULL || (dest.hostData.ip4 != ur.hostData.ip4 && dest.hostData.ip4 != ub.hostData.ip4),
